@@ -84,7 +84,13 @@ def _setup(nv, prior, prior_uni, universe_last=True):
         x = vs[a % nv]
         y = outside if b == 5 else vs[b % nv]
         C.LINK_CLASSES[c % 6](x, y)
-    pu = Universe()
+    if (len(prior_uni) + len(prior)) % 2:
+        # the prior universe lives under restrictive laws (the statement makes no exception for them)
+        from edgegraph.structure.universe import UniverseLaws
+
+        pu = Universe(laws=UniverseLaws(cycles=False, multipath=False, mixed_links=False))
+    else:
+        pu = Universe()
     for k in prior_uni:
         pu.add_vertex(vs[k % nv])
     from edgegraph.traversal import helpers
